@@ -122,6 +122,7 @@ Conforms(e) ==
     [] e.op = "ecb.Add" -> BAdd(e)
     [] e.op = "ecb.hom" -> BHom(e)
     [] e.op = "ecb.OnCurve" -> BOnCurve(e)
+    [] e.op \in {"shift.par", "ecb.par"} -> e.out.panic = ""      \* concurrent first use answers as later sequential use (compared in the driver)
     [] e.op = "shift.b" -> BShift(e)
     [] e.op = "shift.derive" -> BDerive(e)
     [] OTHER -> FALSE
